@@ -20,11 +20,13 @@ SCHEMAS = {
     39: "TimeoutParameters", 40: "AccountThreshold", 41: "TransactionFeeDistribution", 42: "GASRewards",
     43: "UpdateKeysThreshold", 44: "AccessStructure", 45: "HigherLevelAccessStructure", 46: "AuthorizationsV0",
     47: "RootUpdate", 48: "Level1Update", 49: "ArInfo",
+    50: "Payload (all variants but InitContract/Update)", 51: "UpdatePayload (all variants but Protocol)", 52: "BlockItem<EncodedPayload> (all tags)",
 }
 PAYLOAD_TAGS = {3, 4, 5, 6, 7, 8, 13, 17, 19, 21, 22, 24, 25, 26}
 UPDATE_TAGS = {2, 3, 4, 5, 6, 7, 8, 9, 10, 11, 12, 14, 15, 16, 17, 18, 19, 20, 21, 22, 23}
 # sum types of which only some variants have a schema term: variant tags that ARE modelled
-PARTIAL = {27: PAYLOAD_TAGS, 28: PAYLOAD_TAGS, 34: UPDATE_TAGS, 35: {0, 2, 3}}
+PARTIAL = {27: PAYLOAD_TAGS, 28: PAYLOAD_TAGS, 34: UPDATE_TAGS, 35: {0, 2, 3},
+           50: PAYLOAD_TAGS | {0, 16, 18, 20, 23, 27}, 51: UPDATE_TAGS | {13, 24}}
 
 # regression corpus: (schema id, hex, expected decision) - findings confirmed on the real code
 CORPUS = [
@@ -215,16 +217,19 @@ def run(ctx):
         for _ in range(n_gen):
             cases.append((i, next(it), "model"))
     # ---- (b) implementation-generated values
+    impl_ids = set()
     rc, out = c.run_bin(binp, ["gen", ctx.seed, n_gen], timeout=1200)
     if rc != 0 or "GENPANIC" in out:
         ctx.violation({"layer": "harness gen", "output": out[-1500:]}, "implementation-side generator crashed", no_input=True)
         return
-    impl_ids = set()
     for l in out.splitlines():
         p = l.split()
         if len(p) == 2 and p[0].isdigit():
             cases.append((int(p[0]), p[1], "impl"))
             impl_ids.add(int(p[0]))
+    for (i, h, o) in list(cases):
+        if o == "impl" and i in (27, 34, 35):
+            cases.append(({27: 50, 34: 51, 35: 52}[i], h, "impl"))
     # ---- (b') one or more VALUES of every variant of every hand-written sum type (exhaustive matches in the harness)
     n_rep = 3 if quick else 25
     rc, out = c.run_bin(binp, ["variants", ctx.seed, n_rep], timeout=3000)
@@ -242,6 +247,16 @@ def run(ctx):
             ctx.violation({"layer": "variant coverage", "missing": cov["missing"], "unlisted": cov["unlisted"]},
                           "enum variants without a constructed value: %s" % (cov["missing"] or cov["unlisted"]), no_input=True)
         ctx.notes["variant_coverage"] = cov["coverage"]
+    name_to_id = {v: int(k) for k, v in trep.get("registered", {}).items()}
+    fixtures = [d for d in vlines if d.get("k") == "fixture"]
+    nfix = 0
+    for d in fixtures:
+        if d["name"] in name_to_id:
+            cases.append((name_to_id[d["name"]], d["hex"], "impl"))
+            impl_ids.add(name_to_id[d["name"]])
+            nfix += 1
+    ctx.notes["pipeline_fixtures"] = {"emitted": len(fixtures), "matched_to_generated_schema": nfix,
+                                      "unmatched": sorted({d["name"] for d in fixtures if d["name"] not in name_to_id})}
     for d in vres:
         if not d["ok"]:
             variant_fail.append(d)
@@ -269,9 +284,35 @@ def run(ctx):
         len(cases), sum(1 for x in cases if x[2] == "model"), sum(1 for x in cases if x[2] == "impl"),
         sum(1 for x in cases if x[2] == "variant"), sum(1 for x in cases if x[2] == "mut")))
 
+    # ---- opaque leaves: the model (permissive pass) lists the leaves a decode of each input consults; the implementation
+    #      says which of them it accepts; the second model pass uses that verdict (no "undecided" class left)
+    rc, llines = run_model(ctx, runner, pool, ["L %d %s" % (i, h) for i, h, _ in cases])
+    leaves = set()
+    for l in llines:
+        if l.startswith("L"):
+            for tok in l.split()[1:]:
+                k, _, hx = tok.partition(":")
+                leaves.add((k, hx))
+    if len(llines) != len(cases):
+        ctx.violation({"layer": "model runner (leaf pass)", "got": len(llines), "want": len(cases)}, "model runner did not answer every case", no_input=True)
+        return
+    leaves = sorted(leaves)
+    rc, out = c.run_bin(binp, ["leaves"], timeout=1800, input="".join("%s %s\n" % kh for kh in leaves).encode())
+    verdict = [l.split() for l in out.splitlines() if len(l.split()) == 3]
+    if rc != 0 or len(verdict) != len(leaves):
+        ctx.violation({"layer": "harness leaves", "rc": rc, "got": len(verdict), "want": len(leaves), "tail": out[-500:]},
+                      "implementation-side leaf validation failed", no_input=True)
+        return
+    pool2 = os.path.join(ctx.work, "pool2.txt")
+    with open(pool2, "w") as f:
+        f.write(open(pool).read())
+        for k, hx, ok in verdict:
+            if ok == "1":
+                f.write("%s %s\n" % (k, hx))
+    ctx.notes["opaque_leaves"] = {"consulted": len(leaves), "accepted_by_implementation": sum(1 for v in verdict if v[2] == "1")}
     # ---- run both sides
     impl, huge = run_impl(ctx, binp, [(str(i), h) for i, h, _ in cases])
-    rc, mlines = run_model(ctx, runner, pool, ["D %d %s" % (i, h) for i, h, _ in cases])
+    rc, mlines = run_model(ctx, runner, pool2, ["D %d %s" % (i, h) for i, h, _ in cases])
     if len(mlines) != len(cases):
         ctx.violation({"layer": "model runner", "got": len(mlines), "want": len(cases), "tail": mlines[-2:]},
                       "model runner did not answer every case", no_input=True)
@@ -344,7 +385,9 @@ def run(ctx):
                 stats["agree_accept"] += 1
         elif r["r"] == "A":
             if m[0] == "RO":
+                # cannot happen any more: every leaf the strict decode consults was validated by the implementation
                 stats["undecided_opaque"] += 1
+                viol(rep, "%s: implementation accepts an input containing an opaque leaf that it rejects on its own: %s" % (name, h[:120]))
             elif i in PARTIAL and r.get("vt") is not None and r["vt"] not in PARTIAL[i]:
                 stats["unmodelled_variant"] += 1
             else:
@@ -416,8 +459,7 @@ def run(ctx):
     derived_names = set(trep.get("registered", {}).values()) | set(trep.get("tied_equal", []))
     ctx.notes["unmodelled_types"] = [t for t in unmodelled if t.split("::")[-1].split("<")[0].strip() not in derived_names]
     ctx.notes["modelled_types"] = len(S)
-    ctx.notes["unmodelled_variants"] = {"Payload": "tags 0,1,2,16,18,20,23,27", "UpdatePayload": "tags 1,13,24",
-                                        "BlockItem": "tag 1 (credential deployment)"}
+    ctx.notes["unmodelled_variants"] = {"Payload": "tags 1,2 (InitContract, Update)", "UpdatePayload": "tag 1 (ProtocolUpdate)", "BlockItem": "none"}
     ctx.notes["byte_fuzz"] = fuzz_tab
     ctx.notes["fixed_findings"] = [f for f in kf.get("fixed", []) if "C05" in str(f)]
     ctx.cov["samples"] += [{"type": S[i], "input": h[:160], "origin": o, "impl": {k: (v[:160] if isinstance(v, str) else v) for k, v in (r or {}).items()},
